@@ -102,6 +102,11 @@ known("C03", "heading-or-table-row/relayout:space-runs",
       "headings and table cells are not re-flowed, so runs of spaces inside them survive: '## a   b' and '| b   c |' are output as is (in any container). Not repaired: would change heading/table rendering broadly.")
 
 # ---------------------------------------------------------------- known: C06
+known("C06", "sentence-end-inside-construct/atomic:words",
+      "in semantic mode a paragraph is split into sentences (whitespace split + SENTENCE_END_RE) before atomic constructs are protected, so a sentence end inside a code span, link text or title, "
+      "HTML tag, template tag or comment gets a line break inside the construct: reformat_text('Use `foo bar. Baz qux` here.', semantic=True) -> 'Use `foo bar.\\nBaz qux` here.' (fill mode keeps it "
+      "whole). A 20-line repair (protect the whitespace inside ATOMIC_CONSTRUCT_PATTERN matches while line_wrap_by_sentence splits sentences) was written and passes 301 tests, but the golden documents "
+      "pin the broken form ('[St.\\nJohn's Beaumont School](...)' in tests/testdocs/testdoc.expected.{auto,cleaned,semantic}.md), so the unedited suite fails with it: recorded, not repaired.")
 known("C06", "separated-tags/atomic:words",
       "adjacent tags get a temporary space for tokenizing (normalize_adjacent_tags) and denormalize_adjacent_tags removes every single space between a closing and an opening delimiter of the same "
       "family in the wrapped result - also one the author wrote: reformat_text('a {% x %} {% y %} b') -> 'a {% x %}{% y %} b' (same for comments, variables). Not repaired: the inserted space "
